@@ -149,6 +149,7 @@ TNext ==
      ELSE IF IsIdentity(e) THEN
         \* a clone / deserialised copy does not inherit reserved capacity: only count() is guaranteed
         IF SameProjection([S EXCEPT !.capLow = IF e.op = "observe" THEN @ ELSE S.count], e) /\ ObsMatches(S, e)
+           /\ (Has(e, "eq") => e.eq)        \* copy == original by the crate's own PartialEq
         THEN /\ l' = l + 1 /\ bad' = bad
              /\ capLow' = IF e.op = "observe" THEN capLow ELSE count
              /\ path' = <<[op |-> e.op]>> /\ last' = NoResult
